@@ -831,3 +831,325 @@ func c15ReadsBackExactly(c *Ctx) {
 	c.R.Cond(len(bad) == 0, rule, core.FuncName(fn)+": attributes are shown with their fraction", c.P.Pos(fn.Pos()), fmt.Sprintf("%d Format call(s), each with fractional seconds in its layout", n),
 		"an attribute is formatted without the fraction of a second at "+strings.Join(bad, "; ")+": write_time='… 00:00:00.25' is applied exactly and reads back as '… 00:00:00'")
 }
+
+// ---- C03.prefix-clean: keys and listing use one form of the prefix ------------------------------------
+
+func init() {
+	register(&Rule{Name: "C03.prefix-clean", Min: 1, Run: c03PrefixClean,
+		Doc: "the prefix OpenKV hands to kv.Open went through path.Clean: the SDK cleans the URL path of object requests but not the prefix parameter of a listing"})
+	byProp["C03"] = append(byProp["C03"], "C03.prefix-clean")
+	byProp["C16"] = append(byProp["C16"], "C03.prefix-clean")
+	byProp["C20"] = append(byProp["C20"], "C03.prefix-clean")
+	explain["C03"] += " prefix-clean: 'every acknowledged commit is contained in the view of all later opens' — aws-sdk-go cleans the URL path of GET/PUT/DELETE (a//b, ./a, a/../b become a/b, a, b) while the prefix of ListObjectsV2 is a query parameter and goes out as written: under s3_prefix='data//t1' every commit was stored as data/t1/… and no open ever listed it. The value stored as S3BucketInfo.Prefix in OpenKV depends on a call of path.Clean. persist-lists also demands, since repair 2db17cb, that every lookup list that contains current/ looks at merged/ after it (a named version that is being retired exists at every moment)."
+	explain["C16"] += " prefix-clean (shared with C03)."
+	explain["C20"] += " prefix-clean (shared with C03): every spelling of a valid s3_prefix names the place it stores under."
+}
+
+func c03PrefixClean(c *Ctx) {
+	const rule = "C03.prefix-clean"
+	fn := mustFunc(c, "", "", "OpenKV")
+	prefixF := mustField(c, "kv", "S3BucketInfo", "Prefix")
+	if fn == nil || prefixF == nil {
+		return
+	}
+	n := 0
+	good := true
+	where := ""
+	for _, f := range c.Scope(fn).Funcs {
+		for _, st := range an.StoresToField(f, prefixF) {
+			n++
+			cleaned := an.DependsOn(st.Val, func(v ssa.Value) bool {
+				cl, ok := v.(*ssa.Call)
+				if !ok {
+					return false
+				}
+				g := cl.Call.StaticCallee()
+				return g != nil && (an.PkgPathOf(g) == "path" || an.PkgPathOf(g) == "path/filepath") && g.Name() == "Clean"
+			})
+			if !cleaned {
+				good = false
+				where = c.P.Pos(st.Pos())
+			}
+		}
+	}
+	if n == 0 {
+		c.R.Unk(rule, core.FuncName(fn)+": storage prefix", c.P.Pos(fn.Pos()), "no assignment of S3BucketInfo.Prefix found in OpenKV")
+		return
+	}
+	c.R.Cond(good, rule, core.FuncName(fn)+": the prefix is in the form the SDK sends object keys in", c.P.Pos(fn.Pos()), fmt.Sprintf("%d assignment(s) of the prefix, each cleaned", n),
+		"the prefix assigned at "+where+" did not go through path.Clean: with an empty or dot segment in s3_prefix objects are stored under the cleaned path and listed under the raw one — commits are acknowledged and never seen again")
+}
+
+// ---- rules for the repairs that the defect-hunting agents led to (DESIGN.md section 6) ------------------
+
+func init() {
+	register(&Rule{Name: "C05.failed-tx-refuses", Min: 2, Run: c05FailedTxRefuses,
+		Doc: "a write callback that fails in the storage call records the failure, and the common Commit reaches the storage commit only with no failure recorded"})
+	register(&Rule{Name: "C05.create-begins", Min: 1, Run: c05CreateBegins,
+		Doc: "xCreate begins the created table's transaction itself: SQLite enters it into the current transaction without calling xBegin"})
+	register(&Rule{Name: "C09.gc-keeps-staying", Min: 1, Run: c09GcKeepsStaying,
+		Doc: "vacuum takes the links of every version that stays — everything listed under current/ and every version of the graph it does not remove — off the deletion list, not only those of its own tree"})
+	byProp["C05"] = append(byProp["C05"], "C05.failed-tx-refuses", "C05.create-begins")
+	byProp["C14"] = append(byProp["C14"], "C05.failed-tx-refuses")
+	byProp["C16"] = append(byProp["C16"], "C05.failed-tx-refuses", "C09.gc-keeps-staying")
+	byProp["C09"] = append(byProp["C09"], "C09.gc-keeps-staying")
+	byProp["C10"] = append(byProp["C10"], "C09.gc-keeps-staying")
+	byProp["C03"] = append(byProp["C03"], "C09.gc-keeps-staying")
+	explain["C05"] += " failed-tx-refuses: the tree does not undo an insert that fails half-way (the key is in the node when the child below it cannot be loaded for splitting); in an explicit transaction the statement fails, the transaction stays open, and COMMIT used to publish the half-inserted row and a subtree linked twice. (a) In Insert/Update/Delete the non-nil side of the error test of kv Set stores the failure into txFailed; (b) every path of the common Commit to the kv Commit passes the nil side of a test of txFailed. create-begins: every successful return of Module.Create follows a call of the table's Begin (one fixed write time and a rollback snapshot also for the transaction that created the table)."
+	explain["C14"] += " failed-tx-refuses (shared with C05): a storage fault inside a transaction does not end in a damaged published version."
+	explain["C16"] += " failed-tx-refuses (shared with C05); gc-keeps-staying (shared with C09)."
+	explain["C09"] += " gc-keeps-staying: 'no retained version ever refers to a deleted object' — besides the handle's own tree, the function that collects the deletion list lists current/ (error honoured) and, for versions that stay, walks a tree other than its own against the empty tree with a callback that deletes from the candidate set. Before repair d2fe75a the current version of another writer who started from the same parent lost nodes (every later open failed for good), and so did retained history that shares content with removed history."
+	explain["C10"] += " gc-keeps-staying (shared with C09)."
+	explain["C03"] += " gc-keeps-staying (shared with C09): a vacuum by one writer never makes another writer's committed, still un-merged version unreadable."
+}
+
+func c05FailedTxRefuses(c *Ctx) {
+	const rule = "C05.failed-tx-refuses"
+	failedF := an.LookupField(c.P, "", "VirtualTable", "txFailed")
+	commit := mustFunc(c, "", "*VirtualTable", "Commit")
+	if commit == nil {
+		return
+	}
+	if failedF == nil {
+		c.R.Bad(rule, "(*s3db.VirtualTable): a failed write is remembered", "-", "there is no field that records a write of the transaction that failed in storage: the tree does not undo a half-done insert, and COMMIT publishes it")
+		return
+	}
+	// (a) the write callbacks
+	n := 0
+	for _, m := range []string{"Insert", "Update", "Delete"} {
+		fn := mustFunc(c, "", "*VirtualTable", m)
+		if fn == nil {
+			continue
+		}
+		for _, f := range c.Scope(fn).Funcs {
+			for _, call := range an.Calls(f) {
+				if !an.CalleeIs(call, kvPkg, "DB", "Set") {
+					continue
+				}
+				n++
+				ev, _ := an.ErrResult(call)
+				good := false
+				if ev != nil {
+					for _, b := range f.Blocks {
+						iff, ok := b.Instrs[len(b.Instrs)-1].(*ssa.If)
+						if !ok {
+							continue
+						}
+						v, nilIdx, isNil := an.NilTestOf(iff)
+						if !isNil || v != ev {
+							continue
+						}
+						nn := b.Succs[1-nilIdx]
+						for _, in := range nn.Instrs {
+							if st, ok := in.(*ssa.Store); ok {
+								if fa, ok := st.Addr.(*ssa.FieldAddr); ok && an.FieldVar(fa.X.Type(), fa.Field) == failedF && !an.IsNilConst(st.Val) {
+									good = true
+								}
+							}
+						}
+					}
+				}
+				c.R.Cond(good, rule, fmt.Sprintf("%s: a failed Set is remembered #%d", core.FuncName(fn), n), c.P.Pos(call.Pos()), "the failing side of the error test stores the failure",
+					"the storage call can fail without the failure being recorded: inside an explicit transaction the statement reports its error, the transaction stays open, and COMMIT publishes whatever the half-done write left in the tree")
+			}
+		}
+	}
+	if n < 3 {
+		c.R.Errorf("C05.failed-tx-refuses: only %d kv Set calls found in Insert/Update/Delete", n)
+	}
+	// (b) Commit
+	bad := ""
+	h := an.THooks{}
+	h.Branch = func(iff *ssa.If, side bool, st an.TState) an.TState {
+		v, nilIdx, ok := an.NilTestOf(iff)
+		if ok && an.FieldOfLoad(v) == failedF {
+			idx := 1
+			if side {
+				idx = 0
+			}
+			if idx == nilIdx {
+				return ansState(true)
+			}
+		}
+		return st
+	}
+	h.Instr = func(in ssa.Instruction, st an.TState) an.TState {
+		if cl, ok := in.(ssa.CallInstruction); ok && an.CalleeIs(cl, kvPkg, "DB", "Commit") && !bool(st.(ansState)) {
+			bad = c.P.Pos(cl.Pos())
+		}
+		return st
+	}
+	an.WalkTypestate(commit, ansState(false), h, c.Scope(commit))
+	c.R.Cond(bad == "", rule, core.FuncName(commit)+": nothing is published after a failed write", c.P.Pos(commit.Pos()), "the storage commit is reached only with no failure recorded",
+		"the storage commit at "+bad+" can be reached without the record of a failed write having been found empty")
+}
+
+func c05CreateBegins(c *Ctx) {
+	const rule = "C05.create-begins"
+	fn := mustFunc(c, "sqlite", "*Module", "Create")
+	begin := mustFunc(c, "sqlite", "*VirtualTable", "Begin")
+	if fn == nil || begin == nil {
+		return
+	}
+	h := an.THooks{Instr: func(in ssa.Instruction, st an.TState) an.TState {
+		if cl, ok := in.(ssa.CallInstruction); ok && cl.Common().StaticCallee() == begin {
+			return ansState(true)
+		}
+		return st
+	}}
+	good := true
+	why := ""
+	for _, ex := range an.WalkTypestate(fn, ansState(false), h, c.Scope(fn)) {
+		if ex.ErrNil != 0 && !bool(ex.St.(ansState)) {
+			good = false
+			why = "Create can succeed at " + c.P.Pos(ex.Ret.Pos()) + " without having begun the table's transaction: SQLite enters a created table into the current transaction without xBegin, so its writes in that transaction each carry their own write time and a rollback has no snapshot to restore"
+		}
+	}
+	c.R.Cond(good, rule, core.FuncName(fn)+": the created table's transaction is begun", c.P.Pos(fn.Pos()), "every successful return follows Begin", why)
+}
+
+func c09GcKeepsStaying(c *Ctx) {
+	const rule = "C09.gc-keeps-staying"
+	gc := gcFunc(c)
+	listRoots := c.P.LookupFunc("kv", "*DB", "listRoots")
+	if listRoots == nil {
+		listRoots = c.P.LookupFunc("kv", "DB", "listRoots")
+	}
+	crdtF := an.LookupField(c.P, "kv", "DB", "crdt")
+	if gc == nil || crdtF == nil {
+		c.R.Errorf("C09.gc-keeps-staying: anchors not found")
+		return
+	}
+	name := core.FuncName(gc)
+	var fns []*ssa.Function
+	for _, f := range c.Scope(gc).Funcs {
+		fns = append(fns, f)
+	}
+	lists := false
+	protects := false
+	for _, f := range fns {
+		for _, call := range an.Calls(f) {
+			cal := call.Common().StaticCallee()
+			if cal != nil && (cal == listRoots || cal.Name() == "listRoots") {
+				if flow := an.AnalyzeErr(f, errOf(call)); flow != nil && flow.Verdict == an.ErrPropagated {
+					lists = true
+				}
+			}
+			if calleeLabel(call) != "DiffLinks" {
+				continue
+			}
+			rv := an.RecvValue(call)
+			if rv == nil || an.HasField(rv, crdtF) {
+				continue // the handle's own tree
+			}
+			// the callback deletes from a map
+			for _, a := range call.Common().Args {
+				mc, ok := a.(*ssa.MakeClosure)
+				if !ok {
+					continue
+				}
+				if cf, ok := mc.Fn.(*ssa.Function); ok {
+					for _, cc := range an.Calls(cf) {
+						if bi, ok := cc.Common().Value.(*ssa.Builtin); ok && bi.Name() == "delete" {
+							protects = true
+						}
+					}
+				}
+			}
+		}
+	}
+	why := ""
+	switch {
+	case !lists:
+		why = "the function that collects vacuum's deletion list does not list current/ (or drops the listing's error): versions other writers committed and this handle has not merged are unknown to it, and the nodes they share with their parent are deleted — every later open fails for good with NoSuchKey"
+	case !protects:
+		why = "no tree other than the handle's own is walked with a callback that takes links off the deletion list: versions that stay (other writers' current versions, retained history that shares content with removed history) lose node objects"
+	}
+	c.R.Cond(lists && protects, rule, name+": versions that stay keep their nodes", c.P.Pos(gc.Pos()), "current/ is listed and the links of the versions that stay are taken off the deletion list", why)
+}
+
+func errOf(call ssa.CallInstruction) ssa.Value {
+	v, _ := an.ErrResult(call)
+	return v
+}
+
+func init() {
+	register(&Rule{Name: "C12.live-from-has-entries", Min: 1, Run: c12LiveFromHasEntries,
+		Doc: "the table as the connection holds it stands in for an absent from= only when it has entries: a tree that a vacuum emptied has no root node a diff could start from"})
+	byProp["C12"] = append(byProp["C12"], "C12.live-from-has-entries")
+	explain["C12"] += " live-from-has-entries: in the function that starts the diff, the live table's tree is taken as the diff base on the true side of a 'Size() > 0' test (otherwise the empty version is loaded): after every row was deleted and vacuumed away the in-memory tree has a nil root and mast's diff fails comparing nil with a key."
+}
+
+func c12LiveFromHasEntries(c *Ctx) {
+	const rule = "C12.live-from-has-entries"
+	vtTree := mustField(c, "", "VirtualTable", "Tree")
+	var fn *ssa.Function
+	for _, f := range c.P.RepoFuncs(func(rel string) bool { return rel == "sqlite" }) {
+		for _, call := range an.Calls(f) {
+			if an.CalleeIs(call, kvPkg, "DB", "StartDiff") {
+				fn = f
+			}
+		}
+	}
+	if fn == nil || vtTree == nil {
+		c.R.Errorf("C12.live-from-has-entries: the function that starts the diff was not found")
+		return
+	}
+	name := core.FuncName(fn)
+	// blocks on the true side of a "Size() > 0" (or != 0) test
+	var tests []*ssa.BasicBlock
+	for _, b := range fn.Blocks {
+		iff, ok := b.Instrs[len(b.Instrs)-1].(*ssa.If)
+		if !ok {
+			continue
+		}
+		bo, ok := iff.Cond.(*ssa.BinOp)
+		if !ok || (bo.Op != token.GTR && bo.Op != token.NEQ) {
+			continue
+		}
+		cl, isCall := bo.X.(*ssa.Call)
+		k, isK := constInt(bo.Y)
+		if isCall && isK && k == 0 && calleeLabel(cl) == "Size" {
+			tests = append(tests, b)
+		}
+	}
+	n, good := 0, true
+	where := ""
+	for _, b := range fn.Blocks {
+		for _, in := range b.Instrs {
+			ld, ok := in.(*ssa.UnOp)
+			if !ok || ld.Op != token.MUL || an.FieldOfLoad(ld) != vtTree {
+				continue
+			}
+			// only loads whose value becomes the diff base (flows into a phi or straight into StartDiff),
+			// not the load the Size() test itself reads
+			usedAsBase := false
+			for _, r := range *ld.Referrers() {
+				switch r.(type) {
+				case *ssa.Phi, *ssa.Store:
+					usedAsBase = true
+				}
+			}
+			if !usedAsBase {
+				continue
+			}
+			n++
+			ok2 := false
+			for _, t := range tests {
+				if an.OnlyVia(t, 0, b) || t.Succs[0] == b {
+					ok2 = true
+				}
+			}
+			if !ok2 {
+				good = false
+				where = c.P.Pos(ld.Pos())
+			}
+		}
+	}
+	if n == 0 {
+		c.R.OK(rule, name+": an empty live table is the empty version", c.P.Pos(fn.Pos()), "the live table is never the diff base")
+		return
+	}
+	c.R.Cond(good, rule, name+": an empty live table is the empty version", c.P.Pos(fn.Pos()), fmt.Sprintf("%d use(s) of the live tree as diff base, each behind Size() > 0", n),
+		"the live table's tree becomes the diff base at "+where+" without a test that it has entries: after a vacuum emptied the table the query fails with 'keyCompare: don't know how to compare <nil> …'")
+}
